@@ -508,4 +508,67 @@ example : pget (parseSel [kTook] [] [joinDots [kAggregations, ['c'], kAfterKey]]
       rcases hkv with hkv | hkv | hkv <;> subst hkv <;> exact ⟨rfl, by decide⟩)
   exact this
 
+/-! ## 6. Several calls on the same extractor / runner instance
+
+Rally shares one runner instance (hence one `SearchAfterExtractor` / `CompositeAggExtractor`) among all tasks of
+an operation type.  In the model an instance has no state that survives a call, so **a sequence of calls is
+the map of the independent calls**: every call is a function of (response, parameters) only, whatever was
+extracted before (other aggregation paths, point in time on/off, hits total known/unknown, detailed results
+on/off).  The harness runs such sequences on one real instance and on the registered runners and requires
+every call to agree with the model's answer for that call alone and with full parsing. -/
+
+theorem search_after_extractor_session (st : Style) (cs : List SaxCall) :
+    session (saxCallOn st) () cs = cs.map (fun c => searchAfterExtract st c.pit c.hitsTotal c.resp) :=
+  session_stateless _ _ (fun _ _ => rfl) () cs
+
+theorem composite_extractor_session (cs : List CaxCall) :
+    session caxCallOn () cs = cs.map (fun c => compositeExtract c.pit c.path c.hitsTotal c.resp) :=
+  session_stateless _ _ (fun _ _ => rfl) () cs
+
+theorem bulk_stats_session (cs : List BulkCall) :
+    session bulkCallOn () cs =
+      cs.map (fun c => if c.detailed then detailedStats c.resp else simpleStats c.bulkSize c.unitDocs c.resp) :=
+  session_stateless _ _ (fun _ _ => rfl) () cs
+
+theorem parse_session (cs : List ParseCall) :
+    session parseCallOn () cs = cs.map (fun c => parseSel c.props c.lists c.objs (events [] c.resp)) :=
+  session_stateless _ _ (fun _ _ => rfl) () cs
+
+/-- in particular the `after_key` of a composite aggregation at path `p₂` is found although the same instance
+    was used for a different path `p₁` before (together with `after_key_eq_full` for the second call) -/
+theorem composite_extractor_second_call (c₁ c₂ : CaxCall) :
+    session caxCallOn () [c₁, c₂] =
+      [compositeExtract c₁.pit c₁.path c₁.hitsTotal c₁.resp, compositeExtract c₂.pit c₂.path c₂.hitsTotal c₂.resp] :=
+  composite_extractor_session [c₁, c₂]
+
+/-- **query_sessions_results.**  Invocations of paginated-search / composite-agg tasks that share a request
+    body: the reported pages / hits / took / timed_out and every cursor handed on *within* an invocation do not
+    depend on what earlier invocations left in the body … -/
+theorem search_after_query_session (st : Style) (left : BodyLeft) (cs : List SaQCall) :
+    (session (saQueryOn st) left cs).map (·.1) = cs.map (fun c => searchAfterQuery st c.pit c.size c.total c.resps) :=
+  session_result_indep _ _ (fun s a => by unfold saQueryOn; cases searchAfterQuery st a.pit a.size a.total a.resps <;> rfl) left cs
+
+theorem composite_query_session (left : AfterLeft) (cs : List CaQCall) :
+    (session caQueryOn left cs).map (·.1) = cs.map (fun c => compositeQuery c.pit c.path c.total c.resps) :=
+  session_result_indep _ _ (fun s a => by unfold caQueryOn; cases compositeQuery a.pit a.path a.total a.resps <;> rfl) left cs
+
+/-- … the only thing carried over is the cursor in the FIRST request of the next invocation: it is what the
+    previous invocation left in the body, and nothing is left when the loop stopped for lack of further results
+    (fewer cursors than pages); it stays when the loop stopped because `pages` was reached. -/
+theorem first_request_cursor_is_leftover (st : Style) (left : BodyLeft) (c : SaQCall) :
+    (saQueryOn st left c).2.2 = left := by
+  unfold saQueryOn; cases searchAfterQuery st c.pit c.size c.total c.resps <;> rfl
+
+theorem body_clean_after_last_page (st : Style) (left : BodyLeft) (c : SaQCall) (acc : PageAcc)
+    (h : searchAfterQuery st c.pit c.size c.total c.resps = .ok acc) (hstop : acc.cursors.length ≠ acc.pages) :
+    (saQueryOn st left c).1 = none := by
+  unfold saQueryOn saLeftAfter
+  rw [h]
+  simp [hstop]
+
+/-- the leftover is real (observation, outside this property's statement): a cursor stays in the body when the
+    page limit is reached first -/
+example : saLeftAfter none { pages := 2, cursors := [some (.arr [.num (nat ['1'])]), some (.arr [.num (nat ['3'])])] } =
+    some (some (.arr [.num (nat ['3'])])) := rfl
+
 end C19
